@@ -299,7 +299,11 @@ def forwards_to_method(obj, wrapped_name, *args, **kwargs):
         return
     wrapped = self
     for attr in wrapped_name.split('.'):
-        wrapped = getattr(wrapped, attr)
+        try:
+            wrapped = getattr(wrapped, attr)
+        except AttributeError as e:
+            raise ValueError(
+                'Cannot forward to {0!r}: {1}'.format(wrapped_name, e))
     return forwards(obj, wrapped, *args, **kwargs)
 
 
